@@ -392,7 +392,9 @@ func forcedShutdownRound(rd *renderer, dir string, seed uint64) {
 	}
 	quick := filepath.Join(dir, "quick.sh")
 	_ = os.WriteFile(quick, []byte("true\n"), 0755)
-	tree := &Node{Kind: "par", Children: []*Node{{Kind: "sleep", IgnoreInt: true, Detach: true}, {Kind: "sleep"}}}
+	// the only survivor of the interrupt ignores it and does not hold the output pipes: the exec handler returns at once and has
+	// to kill the rest of the group itself
+	tree := &Node{Kind: "par", Children: []*Node{{Kind: "sleep", IgnoreInt: true, Detach: true}}}
 	file := filepath.Join(dir, "forced.sh")
 	_ = os.WriteFile(file, []byte(rd.render(tree)+"\n"), 0755)
 	mark := fmt.Sprintf("f%d_%d", os.Getpid(), seed)
